@@ -16,7 +16,7 @@ RULE = ('one trash-rm PATTERN per case over a multi-volume trash with case varia
         'non-trivial = pattern matches some but not all entries; distinct = (pattern shape, #matching, #entries)')
 ASSUMPTIONS = ['unterminated brackets and the empty pattern are not generated (unspecified by the property)',
                'the matching law itself is a pure function; the simulator contributes the multi-volume on-disk state it is applied to']
-PROBES = ['matched', 'unmatched', 'full-path-pattern', 'bracket-pattern', 'volume-trash-match', 'case-variant-kept',
+PROBES = ['trash-dir-with-hundreds-of-entries', 'matched', 'unmatched', 'full-path-pattern', 'bracket-pattern', 'volume-trash-match', 'case-variant-kept',
           'same-basename-multi-dir', 'original-location-occupied-now', 'payload-that-cannot-be-removed-completely']
 TECHNIQUE = 'deterministic simulation of trash-rm on generated multi-volume trash; removed set compared with an independent glob matcher'
 LEVEL_TEXT = 'seeded exploration of pattern x name-set; set equality between removed pairs and the model matcher; survivors byte-identical'
@@ -67,7 +67,7 @@ def gen(rng):
                       alt_states=[rng.choice(['absent', 'dir']) for _ in range(4)])
     steps = L['steps']
     names = rng.sample(NAMES, rng.randint(3, 8))
-    made = TG.populate(rng, L, steps, n=rng.choice([2, 3, 5, 8, 12]), names=names)
+    made = TG.populate(rng, L, steps, n=rng.choice([2, 3, 5, 8, 12]), names=names, bulk=0.002)
     occ = TG.occupy(rng, steps, made, names) if rng.random() < 0.5 else {}
     if made and rng.random() < 0.2:
         # a .trashinfo nobody can take a Path from (left by an interrupted writer, damaged) next to the well-formed ones: in
@@ -116,6 +116,8 @@ def check(sim, case, st):
     env, uid = spec.get('env', {}), spec.get('uid', 1000)
     mounts = OR.mounts_of(case)
     snap0 = sim.snap()
+    if len(case['world']['steps']) > 400:
+        st.probes['trash-dir-with-hundreds-of-entries'] += 1
     bag0 = OR.scan(sim, snap0, env, uid, mounts)
     r = sim.run(spec)
     st.sims += 1
